@@ -35,6 +35,10 @@ def check(ctx):
     symmetry(ctx, P, iters)
     probabilities(ctx, P)
     loops(ctx, P, iters)
+    reinitialised(ctx, P)
+    # the `blocked` argument of the release notification is the customer's is_blocked flag: its life cycle is a shared instance (C07)
+    from . import c07
+    c07.blocked_flag(ctx, P, views, iters)
     ctx.assume("user-defined trackers are outside the analysed program")
 
 
@@ -277,6 +281,51 @@ def _combine(*effsets):
                 nxt.append((tuple(sorted(g0.items())), acc2))
         res = nxt
     return res
+
+
+def reinitialised(ctx, P):
+    """a tracker object may be handed to several simulations: everything its handlers update must be set afresh by initialise()"""
+    ob = ctx.ob("TINIT", "every attribute a tracker's handlers write is (re)assigned in its initialise()")
+    for c in P.subclasses("StateTracker"):
+        v = P.view(c)
+        r = v.resolve("initialise")
+        if r is None:
+            continue
+        init_attrs = set()
+        for c2 in v.mro:          # an override may extend the inherited initialise() through super()
+            f2 = P.classes[c2].methods.get("initialise") if c2 in P.classes else None
+            if f2 is not None:
+                init_attrs |= {t.attr for x in rules.walk(P, v, f2) if isinstance(x, ast.Assign) for t in x.targets if isinstance(t, ast.Attribute) and unparse(t.value) == "self"}
+                if not any(isinstance(y, ast.Call) and isinstance(y.func, ast.Attribute) and y.func.attr == "initialise" and "super" in unparse(y.func.value) for y in ast.walk(f2)):
+                    break
+        for m in v.methods():
+            if not (m.startswith("change_state_") or m in ("timestamp", "find_blocked_position_and_pop", "adjust_positions")) and m in rules.ANCHOR_METHODS:
+                continue
+            if m in ("initialise", "__init__"):
+                continue
+            cls, fn = v.resolve(m)
+            for x in ast.walk(fn):
+                attr = None
+                if isinstance(x, (ast.Assign, ast.AugAssign)):
+                    for t in (x.targets if isinstance(x, ast.Assign) else [x.target]):
+                        b = t
+                        while isinstance(b, ast.Subscript):
+                            b = b.value
+                        if isinstance(b, ast.Attribute) and unparse(b.value) == "self":
+                            attr = b.attr
+                elif isinstance(x, ast.Call) and isinstance(x.func, ast.Attribute) and x.func.attr in ("append", "pop", "remove", "insert", "extend", "clear", "sort"):
+                    b = x.func.value
+                    while isinstance(b, ast.Subscript):
+                        b = b.value
+                    if isinstance(b, ast.Attribute) and unparse(b.value) == "self":
+                        attr = b.attr
+                if attr is None:
+                    continue
+                ob.ok("%s.%s:%s" % (c, m, attr), "%s.%s writes self.%s" % (c, m, attr))
+                if attr not in init_attrs:
+                    ctx.violation(ob, "R9.init", "%s.%s" % (cls.name, m), "self.%s" % attr, "tracker-state-not-reset",
+                                  "self.%s is updated by the tracker's handlers but initialise() of %s does not set it: a tracker object used by a second simulation "
+                                  "starts from the state the first one left" % (attr, c), loc(x))
 
 
 def symmetry(ctx, P, iters):
